@@ -226,6 +226,7 @@ func c05Case(i int, raw []byte) Result {
 		}
 	}
 	r := Result{OK: true, Nontrivial: nontrivial, Key: string(raw), Evals: 1}
+	encoded := append([]byte{}, st.Data...)
 	got, derr := st.Decode()
 	feat := c.Kind + ":" + c.Opt
 	if c.Kind == "png" {
@@ -260,6 +261,16 @@ func c05Case(i int, raw []byte) Result {
 	}
 	if !bytes.Equal(got, toBytes(c.X)) {
 		return mk("bytes", fmt.Sprintf("decoded %v, original %v (filter %v, parms %v)", got, c.X, st.Dict["Filter"], st.Dict["DecodeParms"]))
+	}
+	// decoding is a function of the encoded bytes: it leaves them alone (the reader keeps stream objects in its
+	// cache and decodes them again for every page that uses them) and gives the same bytes when repeated
+	first := append([]byte{}, got...)
+	if !bytes.Equal(st.Data, encoded) {
+		return mk("input-changed", fmt.Sprintf("Decode changed the encoded data of the stream from %v to %v (filter %v)", encoded, st.Data, st.Dict["Filter"]))
+	}
+	again, aerr := st.Decode()
+	if aerr != nil || !bytes.Equal(again, first) {
+		return mk("not-repeatable", fmt.Sprintf("a second Decode of the same stream gives %v (err %v), the first gave %v (filter %v)", again, aerr, first, st.Dict["Filter"]))
 	}
 	return r
 }
